@@ -230,6 +230,16 @@ fn one_case(ctx: &Ctx, case: u64, l: &mut Local) {
             10 => hdr["typ"] = json!("at+jwt"),
             _ => hdr["typ"] = json!("application/vc+sd-jwt"),
         }
+        // nor do copies of the temporal claims in the protected header (RFC 7519 5.3 allows replicating claims
+        // there): for a credential that must be refused the header announces a perfectly good window
+        if matches!(expect, Expect::Reject(_)) && (vi as u64 + case / 3) % 3 == 0 {
+            hdr["exp"] = json!(t0 + 7200 + r.below(YEAR));
+            hdr["nbf"] = json!(t0 - 7200 - r.below(YEAR));
+            if r.chance(50) {
+                hdr["iat"] = json!(t0 - 60);
+            }
+            l.count("header-carries-a-good-window");
+        }
         l.count(&format!("header-typ.{}", hdr.get("typ").and_then(Value::as_str).unwrap_or("none")));
         let jwt = api::sign_raw(&hdr, &Value::Object(p), cfg.alg.jwt(), &crate::keys::issuer_enc(cfg.alg, 0));
         let sd = Parts {
@@ -264,6 +274,22 @@ fn one_case(ctx: &Ctx, case: u64, l: &mut Local) {
         } else {
             l.count("kb.off");
         }
+        // a presentation that must be refused, with a (crafted, never requested) Key Binding JWT behind it that
+        // announces its own good window: the credential's window is the issuer's alone
+        let pres = if kb.is_none() && matches!(expect, Expect::Reject(_)) && (vi as u64 + case / 5) % 3 == 1 {
+            match Parts::parse(fmt, &pres) {
+                Ok(mut parts) => {
+                    let hk = cfg.holder.unwrap_or((crate::keys::Alg::ES256, 0));
+                    let kbp = json!({"iat": t0, "exp": t0 + 3600 + r.below(YEAR), "nbf": t0 - 3600, "aud": "https://verifier.example", "nonce": "n-c09", "sd_hash": "AAAA"});
+                    parts.kb = Some(api::sign_raw(&json!({"alg": hk.0.name(), "typ": "kb+jwt"}), &kbp, hk.0.jwt(), &crate::keys::holder_enc(hk.0, hk.1)));
+                    l.count("kb-jwt-announces-a-good-window");
+                    parts.encode(fmt, 0).unwrap_or(pres)
+                }
+                Err(_) => pres,
+            }
+        } else {
+            pres
+        };
         let before = api::now();
         let v = api::verify(&pres, &resolver, kb.as_ref().map(|k| (k.aud.as_str(), k.nonce.as_str())), fmt);
         let after = api::now();
